@@ -47,6 +47,7 @@ func (s *c18conc) Property() string { return "C18" }
 func (s *c18conc) Build(w *World) {
 	t := w.Tape
 	w.Prof.Weights = map[string]int{"advance": 0, "hook": []int{1, 10, 40}[t.Draw(3)], "api": 10, "yield": 10}
+	w.EnableLockYields("notifications/publisher.go") // (before the publisher's own goroutine starts)
 	s.p = notifications.NewPublisher()
 	s.p.Startup()
 	nsub, ntop, ncall := 2+t.Draw(2), 1+t.Draw(2), 2+t.Draw(2)
@@ -86,7 +87,6 @@ func (s *c18conc) Build(w *World) {
 		s.plans = append(s.plans, plan)
 	}
 	s.descr = fmt.Sprintf("subs=%d topics=%d callers=%d", nsub, ntop, ncall)
-	w.EnableLockYields("notifications/publisher.go")
 	stamp := func(m map[string]int, k string) {
 		if _, ok := m[k]; !ok {
 			m[k] = s.seq
